@@ -424,10 +424,27 @@ func BuildResourceCircuitBreaker(res string, rulesOfRes []*Rule, oldResCbs []Cir
 	// they must not donate their statistic to a modified rule that happens to be listed earlier,
 	// otherwise the unchanged rule is rebuilt from scratch and loses its runtime state.
 	reserved := make(map[CircuitBreaker]bool, len(oldResCbs))
-	for _, r := range rulesOfRes {
+	matched := make([]bool, len(rulesOfRes))
+	for i, r := range rulesOfRes {
 		for _, oldCb := range oldResCbs {
 			if !reserved[oldCb] && oldCb.BoundRule().isEqualsTo(r) {
 				reserved[oldCb] = true
+				matched[i] = true
+				break
+			}
+		}
+	}
+	// A modified rule - no equal old rule, but an old rule with the same (non-empty) Id whose statistic
+	// it can take over - keeps ITS OWN statistic: that old breaker is held back for it, so that
+	// another new or modified rule listed earlier cannot take it, and it is preferred over other donors.
+	keptFor := make(map[CircuitBreaker]*Rule)
+	for i, r := range rulesOfRes {
+		if matched[i] || r.Id == "" {
+			continue
+		}
+		for _, oldCb := range oldResCbs {
+			if !reserved[oldCb] && keptFor[oldCb] == nil && oldCb.BoundRule().Id == r.Id && oldCb.BoundRule().isStatReusable(r) {
+				keptFor[oldCb] = r
 				break
 			}
 		}
@@ -441,9 +458,14 @@ func BuildResourceCircuitBreaker(res string, rulesOfRes []*Rule, oldResCbs []Cir
 		if equalIdx < 0 {
 			reuseStatIdx = -1
 			for idx, oldCb := range oldResCbs {
-				if !reserved[oldCb] && oldCb.BoundRule().isStatReusable(r) {
+				if reserved[oldCb] || !oldCb.BoundRule().isStatReusable(r) {
+					continue
+				}
+				if owner := keptFor[oldCb]; owner == r {
 					reuseStatIdx = idx
 					break
+				} else if owner == nil && reuseStatIdx < 0 {
+					reuseStatIdx = idx
 				}
 			}
 		}
